@@ -136,6 +136,9 @@ func concreteParamPkg(m map[string]string, term string, t types.Type, home *type
 		return fmt.Sprintf("sdkmath.LegacyNewDecFromBigIntWithPrec(vrBig(%q), 18)", raw.String()), cDec{Raw: raw}, true
 	case "github.com/cosmos/cosmos-sdk/types.Coin":
 		d := modelStr(m["(Coin.Denom "+term+")"])
+		if m["(denom_valid (Coin.Denom "+term+"))"] == "false" {
+			d = "!"
+		}
 		a, ok := modelInt(m, "(Coin.Amount "+term+")")
 		if !ok {
 			a = big.NewInt(0)
@@ -155,6 +158,12 @@ func concreteParamPkg(m map[string]string, term string, t types.Type, home *type
 			return fmt.Sprintf("%s(%s)", types.TypeString(t, func(p *types.Package) string { return p.Name() }), b.String()), b, true
 		case u.Info()&types.IsString != 0:
 			s := modelStr(m[term])
+			if m["(denom_valid "+term+")"] == "false" {
+				s = "!"
+			}
+			if m["(str_len "+term+")"] == "0" {
+				s = ""
+			}
 			return fmt.Sprintf("%q", s), s, true
 		}
 	}
